@@ -59,9 +59,17 @@ func NewContext(system *System, parent *Ref, actor vivid.Actor, options ...vivid
 		Append(chain.ChainFN(initializer.initMailbox)).
 		Append(chain.ChainFN(initializer.initBehavior)).
 		Run(); err != nil {
+		ctx.discardPrelaunchSubscriptions()
 		return nil, vivid.ErrorActorSpawnFailed.With(err)
 	}
 	return ctx, nil
+}
+
+// discardPrelaunchSubscriptions 撤销创建被拒绝的 Actor 在 OnPrelaunch 阶段完成的事件订阅，参见 eventStream.unsubscribeUnborn。
+func (c *Context) discardPrelaunchSubscriptions() {
+	if es, ok := c.system.eventStream.(*eventStream); ok && c.ref != nil {
+		es.unsubscribeUnborn(c.ref)
+	}
 }
 
 type Context struct {
@@ -176,6 +184,7 @@ func (c *Context) ActorOf(actor vivid.Actor, options ...vivid.ActorOption) (vivi
 	}
 
 	if c.system.appendActorContext(childCtx) {
+		childCtx.discardPrelaunchSubscriptions()
 		return nil, vivid.ErrorActorAlreadyExists.WithMessage(childCtx.Ref().GetPath())
 	}
 
@@ -187,6 +196,7 @@ func (c *Context) ActorOf(actor vivid.Actor, options ...vivid.ActorOption) (vivi
 	if status == killed {
 		c.childrenLock.Unlock()
 		c.system.removeActorContext(childCtx)
+		childCtx.discardPrelaunchSubscriptions()
 		return nil, vivid.ErrorActorDeaded
 	}
 	if c.children == nil {
@@ -194,6 +204,7 @@ func (c *Context) ActorOf(actor vivid.Actor, options ...vivid.ActorOption) (vivi
 	}
 	c.children[childCtx.Ref().GetPath()] = childCtx.Ref()
 	c.childrenLock.Unlock()
+	childCtx.ref.unborn.Store(false) // 创建已确认：OnPrelaunch 中完成的订阅自此生效
 
 	c.tell(true, childCtx.Ref(), new(vivid.OnLaunch))
 	c.Logger().Debug("actor spawned", log.String("path", childCtx.Ref().GetPath()))
